@@ -117,7 +117,7 @@ def main():
             "property": prop,
             "summary": first[:300],
             "needs_to_manifest": "see notes.md",
-            "origin": "written by a sub-agent that was given only the property text and a scratch worktree" + (" (round 2: also told the one-line ideas of the round-1 changes for this property, to avoid repeats)" if offset else ""),
+            "origin": "written by a sub-agent that was given only the property text and a scratch worktree" + (" (" + os.environ["SEED_ROUND_NOTE"] + ")" if os.environ.get("SEED_ROUND_NOTE") else ""),
             "confirmed_by_me": {
                 "worktree": WT + " (scratch worktree of /repo HEAD " + sh("git -C /repo rev-parse --short HEAD").stdout.strip() + ")",
                 "commands": [
